@@ -88,6 +88,8 @@ func (c *CodecConn[Enc, Dec]) ReadNext() (Dec, error) {
 func (c *CodecConn[Enc, Dec]) WriteNext(item Enc) (n int, err error) {
 	err = c.codec.Encode(item, c.dst)
 	if err == nil {
+		// Encoders which only claim space in dst leave the item in the write area; make it visible to WriteTo.
+		c.dst.Commit(c.dst.WriteLen())
 		var nn int64
 		nn, err = c.dst.WriteTo(c.stream)
 		n = int(nn)
@@ -98,6 +100,8 @@ func (c *CodecConn[Enc, Dec]) WriteNext(item Enc) (n int, err error) {
 func (c *CodecConn[Enc, Dec]) AsyncWriteNext(item Enc, cb AsyncCallback) {
 	err := c.codec.Encode(item, c.dst)
 	if err == nil {
+		// Encoders which only claim space in dst leave the item in the write area; make it visible to AsyncWriteTo.
+		c.dst.Commit(c.dst.WriteLen())
 		c.dst.AsyncWriteTo(c.stream, cb)
 	} else {
 		cb(err, 0)
